@@ -41,7 +41,8 @@ SizeLimit == 1000000
 P2 == [a \in 0..19 |-> Pow(2, a)]
 P3 == [b \in 0..12 |-> Pow(3, b)]
 Sizes == {P2[q[1]] * P3[q[2]] : q \in {r \in (0..19) \X (0..12) : P3[r[2]] <= SizeLimit \div P2[r[1]]}}
-NsOptimImpl(n) == CHOOSE s \in Sizes : s >= n /\ \A u \in Sizes : u >= n => s <= u
+\* (a power of two lies in n .. 2n-1, so the first entry >= n is found among the entries below 2n)
+NsOptimImpl(n) == LET C == {s \in Sizes : s >= n /\ s < 2 * n} IN CHOOSE s \in C : \A u \in C : s <= u
 \* property: the smallest number of the form 2^a 3^b not below n
 RECURSIVE Strip(_, _)
 Strip(u, d) == IF u % d = 0 THEN Strip(u \div d, d) ELSE u
